@@ -173,212 +173,346 @@ pub fn stub_format(_args: std::fmt::Arguments<'_>) -> String {
 }
 
 // =============================================================================================
-// Harness-side type descriptors.  `Ty` is plain constant data (so universes are enumerated with
-// concrete loop indices and CBMC sees concrete shapes); `real()` builds the repo's own `Type`
-// with the repo's own constructors (`Type::concat` for unions, so unions are real MultiTypes).
+// Harness-side type descriptors.
+//
+// A type of the universe is a small integer `Ty` (index); its shape is given by *code*
+// (`desc(i)`: a match on a concrete index), never by data with pointers: CBMC does not resolve the
+// tags of pointer-carrying enum data (not even of `static` tables), so a descriptor *enum* made the
+// symbolic execution walk every arm.  `real(i)` builds the repo's own `Type` with the repo's own
+// constructors (`|` = `Type::concat` for unions, so unions are real MultiTypes over the container
+// model); `val(i,k)` builds a representative inhabitant with symbolic scalars; `in_ty(v,i)` is the
+// reference deep-membership relation.
 // =============================================================================================
-use crate::variable::{FunctionType, StructType};
+use crate::variable::{Array, FunctionType, StructType, Typed};
 use crate::verif_model::HashMap;
 
-#[derive(Clone, Copy, PartialEq, Eq, Debug)]
-pub enum Ty {
-    Bool,
-    Int,
-    Float,
-    Str,
-    Void,
-    Any,
-    Never,
-    Arr(&'static Ty),
-    Mut(&'static Ty),
-    Tup(&'static [Ty]),
-    Fun(&'static [Ty], &'static Ty),
-    Struct(&'static [(&'static str, Ty)]),
-    Union(&'static [Ty]),
+pub type Ty = u8;
+pub const NONE: Ty = 255;
+
+#[derive(Clone, Copy)]
+pub struct D {
+    /// 0 bool 1 int 2 float 3 string 4 () 5 any 6 !  | 10 [a] | 11 mut a | 12 (a,b[,c]) | 13 (a[,b])->c
+    /// | 14 ()->c | 15 struct{a: a} | 16 struct{a: a, b: b} | 17 union a|b[|c] | 18 (a)  one-tuple
+    pub k: u8,
+    pub a: Ty,
+    pub b: Ty,
+    pub c: Ty,
+}
+const fn d(k: u8, a: Ty, b: Ty, c: Ty) -> D {
+    D { k, a, b, c }
 }
 
-pub fn real(t: &Ty) -> Type {
-    match t {
-        Ty::Bool => Type::Bool,
-        Ty::Int => Type::Int,
-        Ty::Float => Type::Float,
-        Ty::Str => Type::String,
-        Ty::Void => Type::Void,
-        Ty::Any => Type::Any,
-        Ty::Never => Type::Never,
-        Ty::Arr(e) => Type::Array(Arc::new(real(e))),
-        Ty::Mut(e) => Type::Mut(Arc::new(real(e))),
-        Ty::Tup(es) => {
-            let mut v = Vec::new();
-            let mut k = 0;
-            while k < es.len() {
-                v.push(real(&es[k]));
-                k += 1;
-            }
-            Type::Tuple(v.into())
-        }
-        Ty::Fun(ps, r) => {
-            let mut v = Vec::new();
-            let mut k = 0;
-            while k < ps.len() {
-                v.push(real(&ps[k]));
-                k += 1;
-            }
-            Type::Function(Arc::new(FunctionType { params: v.into(), return_type: real(r) }))
-        }
-        Ty::Struct(fs) => {
-            let mut m: HashMap<Arc<str>, Type> = HashMap::new();
-            let mut k = 0;
-            while k < fs.len() {
-                m.insert(fs[k].0.into(), real(&fs[k].1));
-                k += 1;
-            }
-            Type::Struct(StructType(Arc::new(m)))
-        }
-        Ty::Union(ms) => {
-            let mut acc = real(&ms[0]);
-            let mut k = 1;
-            while k < ms.len() {
-                acc = acc | real(&ms[k]);
-                k += 1;
-            }
-            acc
-        }
+// ---- the universe -----------------------------------------------------------------------------
+pub const T_BOOL: Ty = 0;
+pub const T_INT: Ty = 1;
+pub const T_FLOAT: Ty = 2;
+pub const T_STR: Ty = 3;
+pub const T_VOID: Ty = 4;
+pub const T_ANY: Ty = 5;
+pub const T_NEVER: Ty = 6;
+pub const N_LEAF: Ty = 7;
+// depth 1
+pub const T_ARR_INT: Ty = 7;
+pub const T_ARR_FLOAT: Ty = 8;
+pub const T_ARR_ANY: Ty = 9;
+pub const T_ARR_NEVER: Ty = 10;
+pub const T_MUT_INT: Ty = 11;
+pub const T_MUT_FLOAT: Ty = 12;
+pub const T_TUP_INT_FLOAT: Ty = 13;
+pub const T_TUP_INT_INT: Ty = 14;
+pub const T_TUP_ANY_INT: Ty = 15;
+pub const T_FUN_INT_FLOAT: Ty = 16; // (int) -> float
+pub const T_FUN_ANY_INT: Ty = 17; // (any) -> int
+pub const T_FUN0_INT: Ty = 18; // () -> int
+pub const T_ST_A_INT: Ty = 19; // struct{a: int}
+pub const T_ST_AB: Ty = 20; // struct{a: int, b: float}
+pub const T_ST_A_ANY: Ty = 21; // struct{a: any}
+pub const T_U_INT_FLOAT: Ty = 22; // int|float
+pub const T_U_INT_STR: Ty = 23; // int|string
+pub const T_U_INT_FLOAT_STR: Ty = 24; // int|float|string
+pub const T_U_INT_ARR_INT: Ty = 25; // int|[int]
+pub const T_U_ARRS: Ty = 26; // [int]|[float]
+pub const T_U_MUTS: Ty = 27; // mut int|mut float
+pub const T_U_ARR_MUT: Ty = 28; // [int]|mut int
+// depth 2
+pub const T_ARR_U_INT_FLOAT: Ty = 29; // [int|float]
+pub const T_MUT_U_INT_FLOAT: Ty = 30; // mut (int|float)
+pub const T_ARR_ARR_INT: Ty = 31; // [[int]]
+pub const T_TUP_U_INT: Ty = 32; // (int|float, int)
+pub const T_FUN_U_INT: Ty = 33; // (int|float) -> int
+pub const T_FUN_INT_U: Ty = 34; // (int) -> (int|float)
+pub const T_ST_A_U: Ty = 35; // struct{a: int|float}
+pub const T_U_TUPS: Ty = 36; // (int,float)|(int,int)
+pub const T_U_FUNS: Ty = 37; // (int)->float | (any)->int
+pub const T_U_STRUCTS: Ty = 38; // struct{a:int} | struct{a:int,b:float}
+pub const T_ITER_INT: Ty = 39; // () -> (bool, int)
+pub const T_TUP_BOOL_INT: Ty = 40; // (bool, int)
+pub const T_TUP1_INT: Ty = 41; // (int)
+pub const T_MUT_ARR_INT: Ty = 42; // mut [int]
+pub const T_U_MUT_INT_MUT_U: Ty = 43; // mut int | mut (int|float)
+pub const T_MUT_U_INT_STR: Ty = 44; // mut (int|string)
+pub const T_U_FLOAT_ARRANY_ARRINT: Ty = 45; // float | [any] | [int]   (a member is a supertype of a later one)
+pub const T_U_INT_ARRU_ARRINT: Ty = 46; // int | [int|float] | [int]
+pub const T_ARR_U_INT_STR: Ty = 47; // [int|string]
+pub const T_FUN_U_U: Ty = 48; // (int|float) -> (int|float)
+pub const T_ST_AB_ANY: Ty = 49; // struct{a: any, b: float}
+pub const N_TY: Ty = 50;
+
+pub fn desc(i: Ty) -> D {
+    match i {
+        0 => d(0, NONE, NONE, NONE),
+        1 => d(1, NONE, NONE, NONE),
+        2 => d(2, NONE, NONE, NONE),
+        3 => d(3, NONE, NONE, NONE),
+        4 => d(4, NONE, NONE, NONE),
+        5 => d(5, NONE, NONE, NONE),
+        6 => d(6, NONE, NONE, NONE),
+        7 => d(10, T_INT, NONE, NONE),
+        8 => d(10, T_FLOAT, NONE, NONE),
+        9 => d(10, T_ANY, NONE, NONE),
+        10 => d(10, T_NEVER, NONE, NONE),
+        11 => d(11, T_INT, NONE, NONE),
+        12 => d(11, T_FLOAT, NONE, NONE),
+        13 => d(12, T_INT, T_FLOAT, NONE),
+        14 => d(12, T_INT, T_INT, NONE),
+        15 => d(12, T_ANY, T_INT, NONE),
+        16 => d(13, T_INT, NONE, T_FLOAT),
+        17 => d(13, T_ANY, NONE, T_INT),
+        18 => d(14, NONE, NONE, T_INT),
+        19 => d(15, T_INT, NONE, NONE),
+        20 => d(16, T_INT, T_FLOAT, NONE),
+        21 => d(15, T_ANY, NONE, NONE),
+        22 => d(17, T_INT, T_FLOAT, NONE),
+        23 => d(17, T_INT, T_STR, NONE),
+        24 => d(17, T_INT, T_FLOAT, T_STR),
+        25 => d(17, T_INT, T_ARR_INT, NONE),
+        26 => d(17, T_ARR_INT, T_ARR_FLOAT, NONE),
+        27 => d(17, T_MUT_INT, T_MUT_FLOAT, NONE),
+        28 => d(17, T_ARR_INT, T_MUT_INT, NONE),
+        29 => d(10, T_U_INT_FLOAT, NONE, NONE),
+        30 => d(11, T_U_INT_FLOAT, NONE, NONE),
+        31 => d(10, T_ARR_INT, NONE, NONE),
+        32 => d(12, T_U_INT_FLOAT, T_INT, NONE),
+        33 => d(13, T_U_INT_FLOAT, NONE, T_INT),
+        34 => d(13, T_INT, NONE, T_U_INT_FLOAT),
+        35 => d(15, T_U_INT_FLOAT, NONE, NONE),
+        36 => d(17, T_TUP_INT_FLOAT, T_TUP_INT_INT, NONE),
+        37 => d(17, T_FUN_INT_FLOAT, T_FUN_ANY_INT, NONE),
+        38 => d(17, T_ST_A_INT, T_ST_AB, NONE),
+        39 => d(14, NONE, NONE, T_TUP_BOOL_INT),
+        40 => d(12, T_BOOL, T_INT, NONE),
+        41 => d(18, T_INT, NONE, NONE),
+        42 => d(11, T_ARR_INT, NONE, NONE),
+        43 => d(17, T_MUT_INT, T_MUT_U_INT_FLOAT, NONE),
+        44 => d(11, T_U_INT_STR, NONE, NONE),
+        45 => d(17, T_FLOAT, T_ARR_ANY, T_ARR_INT),
+        46 => d(17, T_INT, T_ARR_U_INT_FLOAT, T_ARR_INT),
+        47 => d(10, T_U_INT_STR, NONE, NONE),
+        48 => d(13, T_U_INT_FLOAT, NONE, T_U_INT_FLOAT),
+        49 => d(16, T_ANY, T_FLOAT, NONE),
+        _ => panic!("type index outside the universe"),
     }
 }
 
-use crate::variable::{Array, Typed};
+pub fn real(i: Ty) -> Type {
+    let t = desc(i);
+    match t.k {
+        0 => Type::Bool,
+        1 => Type::Int,
+        2 => Type::Float,
+        3 => Type::String,
+        4 => Type::Void,
+        5 => Type::Any,
+        6 => Type::Never,
+        10 => Type::Array(Arc::new(real(t.a))),
+        11 => Type::Mut(Arc::new(real(t.a))),
+        12 => {
+            let mut v = vec![real(t.a), real(t.b)];
+            if t.c != NONE {
+                v.push(real(t.c));
+            }
+            Type::Tuple(v.into())
+        }
+        13 => {
+            let mut v = vec![real(t.a)];
+            if t.b != NONE {
+                v.push(real(t.b));
+            }
+            Type::Function(Arc::new(FunctionType { params: v.into(), return_type: real(t.c) }))
+        }
+        14 => Type::Function(Arc::new(FunctionType { params: Arc::from(Vec::<Type>::new()), return_type: real(t.c) })),
+        15 => {
+            let mut m: HashMap<Arc<str>, Type> = HashMap::new();
+            m.insert("a".into(), real(t.a));
+            Type::Struct(StructType(Arc::new(m)))
+        }
+        16 => {
+            let mut m: HashMap<Arc<str>, Type> = HashMap::new();
+            m.insert("a".into(), real(t.a));
+            m.insert("b".into(), real(t.b));
+            Type::Struct(StructType(Arc::new(m)))
+        }
+        17 => {
+            let mut acc = real(t.a) | real(t.b);
+            if t.c != NONE {
+                acc = acc | real(t.c);
+            }
+            acc
+        }
+        18 => Type::Tuple(vec![real(t.a)].into()),
+        _ => panic!("bad descriptor"),
+    }
+}
+/// the union with its members inserted in the opposite order
+pub fn real_rev(i: Ty) -> Type {
+    let t = desc(i);
+    if t.k != 17 {
+        return real(i);
+    }
+    if t.c != NONE {
+        real(t.c) | real(t.b) | real(t.a)
+    } else {
+        real(t.b) | real(t.a)
+    }
+}
 
 fn short_str(k: usize) -> Variable {
     if k % 2 == 0 { Variable::String("".into()) } else { Variable::String("a\u{e9}".into()) }
 }
 
-/// A representative value inhabiting `t`; scalars are symbolic, `k` (concrete) selects union
+/// number of structurally different witnesses `val(i, k)` worth enumerating for type i
+pub fn n_vals(i: Ty) -> usize {
+    let t = desc(i);
+    match t.k {
+        5 => 3,
+        6 => 0,
+        10 => if desc(t.a).k == 6 { 1 } else { 2 },
+        17 => if t.c != NONE { 3 } else { 2 },
+        _ => 1,
+    }
+}
+
+/// A representative value inhabiting type i; scalars are symbolic, `k` (concrete) selects union
 /// members / the empty-vs-non-empty array / the `any` witness.
-pub fn val(t: &Ty, k: usize) -> Variable {
-    match t {
-        Ty::Bool => Variable::Bool(kani::any()),
-        Ty::Int => Variable::Int(kani::any()),
-        Ty::Float => Variable::Float(kani::any()),
-        Ty::Str => short_str(k),
-        Ty::Void => Variable::Void,
-        Ty::Any => match k % 3 {
+pub fn val(i: Ty, k: usize) -> Variable {
+    let t = desc(i);
+    match t.k {
+        0 => Variable::Bool(kani::any()),
+        1 => Variable::Int(kani::any()),
+        2 => Variable::Float(kani::any()),
+        3 => short_str(k),
+        4 => Variable::Void,
+        5 => match k % 3 {
             0 => Variable::Int(kani::any()),
             1 => short_str(k / 3),
             _ => Variable::Void,
         },
-        Ty::Never => panic!("no value inhabits !"),
-        Ty::Arr(e) => {
-            let elements: Arc<[Variable]> = if k % 2 == 0 || matches!(**e, Ty::Never) {
+        6 => panic!("no value inhabits !"),
+        10 => {
+            let elements: Arc<[Variable]> = if k % 2 == 0 || desc(t.a).k == 6 {
                 Arc::from(Vec::new())
             } else {
-                Arc::from(vec![val(e, k / 2)])
+                Arc::from(vec![val(t.a, k / 2)])
             };
-            Variable::Array(Arc::new(Array::new_with_type(real(e), elements)))
+            Variable::Array(Arc::new(Array::new_with_type(real(t.a), elements)))
         }
-        Ty::Mut(e) => Variable::Mut(new_cell(real(e), val(e, k))),
-        Ty::Tup(es) => {
-            let mut v = Vec::new();
-            let mut i = 0;
-            while i < es.len() {
-                v.push(val(&es[i], k));
-                i += 1;
+        11 => Variable::Mut(new_cell(real(t.a), val(t.a, k))),
+        12 => {
+            let mut v = vec![val(t.a, k), val(t.b, k)];
+            if t.c != NONE {
+                v.push(val(t.c, k));
             }
             Variable::Tuple(v.into())
         }
-        Ty::Fun(..) => Variable::of_type(&real(t)).unwrap(),
-        Ty::Struct(fs) => {
+        13 | 14 => Variable::of_type(&real(i)).unwrap(),
+        15 => {
             let mut m: HashMap<Arc<str>, Variable> = HashMap::new();
-            let mut i = 0;
-            while i < fs.len() {
-                m.insert(fs[i].0.into(), val(&fs[i].1, k));
-                i += 1;
-            }
+            m.insert("a".into(), val(t.a, k));
             Variable::Struct(Arc::new(m))
         }
-        Ty::Union(ms) => val(&ms[k % ms.len()], k / ms.len()),
+        16 => {
+            let mut m: HashMap<Arc<str>, Variable> = HashMap::new();
+            m.insert("a".into(), val(t.a, k));
+            m.insert("b".into(), val(t.b, k));
+            Variable::Struct(Arc::new(m))
+        }
+        17 => {
+            let n = if t.c != NONE { 3 } else { 2 };
+            let m = match k % n {
+                0 => t.a,
+                1 => t.b,
+                _ => t.c,
+            };
+            val(m, k / n)
+        }
+        18 => Variable::Tuple(vec![val(t.a, k)].into()),
+        _ => panic!("bad descriptor"),
     }
 }
 
-/// Deep membership "v belongs to t", judged by the *contents* of v (reference semantics written
-/// in the harness; function values are judged by their declared type).
-pub fn in_ty(v: &Variable, t: &Ty) -> bool {
-    match t {
-        Ty::Any => true,
-        Ty::Never => false,
-        Ty::Bool => matches!(v, Variable::Bool(_)),
-        Ty::Int => matches!(v, Variable::Int(_)),
-        Ty::Float => matches!(v, Variable::Float(_)),
-        Ty::Str => matches!(v, Variable::String(_)),
-        Ty::Void => matches!(v, Variable::Void),
-        Ty::Arr(e) => match v {
+/// Deep membership "v belongs to type i", judged by the *contents* of v (reference semantics
+/// written in the harness; function values are judged by their declared type).
+pub fn in_ty(v: &Variable, i: Ty) -> bool {
+    let t = desc(i);
+    match t.k {
+        5 => true,
+        6 => false,
+        0 => matches!(v, Variable::Bool(_)),
+        1 => matches!(v, Variable::Int(_)),
+        2 => matches!(v, Variable::Float(_)),
+        3 => matches!(v, Variable::String(_)),
+        4 => matches!(v, Variable::Void),
+        10 => match v {
             Variable::Array(a) => {
-                let mut i = 0;
-                while i < a.len() {
-                    if !in_ty(&a[i], e) {
+                let mut j = 0;
+                while j < a.len() {
+                    if !in_ty(&a[j], t.a) {
                         return false;
                     }
-                    i += 1;
+                    j += 1;
                 }
                 true
             }
             _ => false,
         },
-        Ty::Mut(e) => match v {
+        11 => match v {
             // a cell belongs to `mut T` iff it was declared with a type equivalent to T and holds a T
             Variable::Mut(m) => {
-                let declared = real(e);
-                m.var_type.matches(&declared) && declared.matches(&m.var_type) && in_ty(&m.variable.read().unwrap(), e)
+                let declared = real(t.a);
+                m.var_type.matches(&declared) && declared.matches(&m.var_type) && in_ty(&m.variable.read().unwrap(), t.a)
             }
             _ => false,
         },
-        Ty::Tup(es) => match v {
+        12 | 18 => match v {
             Variable::Tuple(xs) => {
-                if xs.len() != es.len() {
-                    return false;
-                }
-                let mut i = 0;
-                while i < es.len() {
-                    if !in_ty(&xs[i], &es[i]) {
-                        return false;
-                    }
-                    i += 1;
-                }
-                true
+                let n = if t.k == 18 { 1 } else if t.c != NONE { 3 } else { 2 };
+                xs.len() == n
+                    && in_ty(&xs[0], t.a)
+                    && (n < 2 || in_ty(&xs[1], t.b))
+                    && (n < 3 || in_ty(&xs[2], t.c))
             }
             _ => false,
         },
-        Ty::Fun(..) => match v {
-            Variable::Function(f) => f.as_type().matches(&real(t)),
+        13 | 14 => match v {
+            Variable::Function(f) => f.as_type().matches(&real(i)),
             _ => false,
         },
-        Ty::Struct(fs) => match v {
+        15 | 16 => match v {
             Variable::Struct(m) => {
-                let mut i = 0;
-                while i < fs.len() {
-                    match m.get(fs[i].0) {
-                        Some(x) => {
-                            if !in_ty(x, &fs[i].1) {
-                                return false;
-                            }
-                        }
-                        None => return false,
-                    }
-                    i += 1;
-                }
-                true
+                let a_ok = match m.get("a") {
+                    Some(x) => in_ty(x, t.a),
+                    None => false,
+                };
+                let b_ok = t.k == 15
+                    || match m.get("b") {
+                        Some(x) => in_ty(x, t.b),
+                        None => false,
+                    };
+                a_ok && b_ok
             }
             _ => false,
         },
-        Ty::Union(ms) => {
-            let mut i = 0;
-            while i < ms.len() {
-                if in_ty(v, &ms[i]) {
-                    return true;
-                }
-                i += 1;
-            }
-            false
-        }
+        17 => in_ty(v, t.a) || in_ty(v, t.b) || (t.c != NONE && in_ty(v, t.c)),
+        _ => panic!("bad descriptor"),
     }
 }
